@@ -11,18 +11,12 @@
 -/
 import EinoV.Model.C18
 import EinoV.Proofs.C18
+import EinoV.Proofs.C18Gen
 import EinoV.Gen.FactsC18
 import EinoV.Expected.C18
 
 namespace EinoV.C18
 open EinoV.Gen
-
-/-- the source facts, decoded into the model's parameter record -/
-def genFacts : Option Facts :=
-  Facts.decode FactsC18.checkerRules FactsC18.checkerAtEOF
-    FactsC18.topoPlainNodes FactsC18.topoPlainEdges FactsC18.topoPlainBranches
-    FactsC18.topoRDNodes FactsC18.topoRDEdges FactsC18.topoRDBranches
-    FactsC18.maxStepPassed FactsC18.defaultSlack FactsC18.modelPreAppends FactsC18.toolsPreAppends
 
 /-- Source fact tie: the regenerated facts are the ones the theorems are proved for, the nil
     checker is the first-chunk checker, the tools pre-handler records the return-directly
@@ -36,7 +30,8 @@ theorem facts_match :
     FactsC18.stepGuardGE = true ∧
     FactsC18.maxStepsBelowOneRejected = true := by decide
 
-private theorem facts_eq {F : Facts} (hF : genFacts = some F) : F = Expected.C18.facts := by
+/-- consequence used by every theorem below: the decoded source facts are the expected record -/
+theorem facts_eq {F : Facts} (hF : genFacts = some F) : F = Expected.C18.facts := by
   have := facts_match.1
   rw [hF] at this
   exact Option.some.inj this
@@ -142,57 +137,25 @@ theorem react_stops {F : Facts} (hF : genFacts = some F) (cfg : Config) (mode : 
   simp only [hl]
   exact ⟨rounds_evs_le cfg _ script l orig, rounds_maxSteps cfg _ script l orig⟩
 
-theorem react_limit_only_truncates {F : Facts} (hF : genFacts = some F) (cfg cfg' : Config)
-    (mode : Mode) (orig : List Msg) (script : List Reply)
-    (hsame : cfg'.tools = cfg.tools ∧ cfg'.returnDirectly = cfg.returnDirectly ∧
-             cfg'.modifier = cfg.modifier ∧ cfg'.checker = cfg.checker)
-    (hpos : 0 < cfg.maxStep) (hle : cfg.maxStep ≤ cfg'.maxStep)
+theorem react_limit_only_truncates {F : Facts} (hF : genFacts = some F) (cfg : Config)
+    (mode : Mode) (orig : List Msg) (script : List Reply) (n : Int)
+    (hpos : 0 < cfg.maxStep) (hle : cfg.maxStep ≤ n)
     (hne : (run F cfg mode orig script).result ≠ .error .maxSteps) :
-    run F cfg' mode orig script = run F cfg mode orig script := by
+    run F { cfg with maxStep := n } mode orig script = run F cfg mode orig script := by
   rw [facts_eq hF] at hne ⊢
-  obtain ⟨cfgt, cfgr, cfgs, cfgm, cfgc⟩ := cfg
-  obtain ⟨cfgt', cfgr', cfgs', cfgm', cfgc'⟩ := cfg'
-  obtain ⟨h1, h2, h3, h4⟩ := hsame
-  simp only at h1 h2 h3 h4 hpos hle
-  subst h1 h2 h3 h4
-  have hl : ∀ (n : Int), 0 < n →
-      stepLimit Expected.C18.facts ⟨cfgt', cfgr', n, cfgm', cfgc'⟩ = some n.toNat := by
-    intro n hn
-    have h0 : (n == 0) = false := by simp; omega
-    have h1 : ¬ n < 0 := by omega
+  have hl : ∀ (c : Config), 0 < c.maxStep →
+      stepLimit Expected.C18.facts c = some c.maxStep.toNat := by
+    intro c hn
+    have h0 : (c.maxStep == 0) = false := by simp; omega
+    have h1 : ¬ c.maxStep < 0 := by omega
     simp [stepLimit, Expected.C18.facts, h0, h1]
-  rw [run_eq, run_eq, hl _ hpos, hl _ (by omega)]
-  rw [run_eq, hl _ hpos] at hne
+  rw [run_eq, hl cfg hpos] at hne
+  rw [run_eq, run_eq, hl cfg hpos, hl { cfg with maxStep := n } (by simp only; omega)]
   simp only at hne ⊢
-  have hgo : goes Expected.C18.facts ⟨cfgt', cfgr', cfgs', cfgm', cfgc'⟩ mode
-      = goes Expected.C18.facts ⟨cfgt', cfgr', cfgs, cfgm', cfgc'⟩ mode := rfl
-  have hr : ∀ d b h, rounds ⟨cfgt', cfgr', cfgs', cfgm', cfgc'⟩ d script b h
-      = rounds ⟨cfgt', cfgr', cfgs, cfgm', cfgc'⟩ d script b h := by
-    intro d b h
-    induction script generalizing b h with
-    | nil => cases b <;> rfl
-    | cons r rest ih =>
-      cases b with
-      | zero => rfl
-      | succ b => simp only [rounds, runTools, resolveCalls, ih]; rfl
-  rw [hgo, hr]
-  -- budget monotonicity, one step at a time
-  obtain ⟨d, hd⟩ : ∃ d, cfgs'.toNat = cfgs.toNat + d := ⟨cfgs'.toNat - cfgs.toNat, by omega⟩
-  rw [hd]
-  clear hd hle hl hr hgo
-  induction d with
-  | zero => rfl
-  | succ d ih =>
-    have := rounds_mono ⟨cfgt', cfgr', cfgs, cfgm', cfgc'⟩
-      (goes Expected.C18.facts ⟨cfgt', cfgr', cfgs, cfgm', cfgc'⟩ mode) script (cfgs.toNat + d) orig
-    have hq : rounds ⟨cfgt', cfgr', cfgs, cfgm', cfgc'⟩
-        (goes Expected.C18.facts ⟨cfgt', cfgr', cfgs, cfgm', cfgc'⟩ mode) script (cfgs.toNat + d) orig
-        = rounds ⟨cfgt', cfgr', cfgs, cfgm', cfgc'⟩
-        (goes Expected.C18.facts ⟨cfgt', cfgr', cfgs, cfgm', cfgc'⟩ mode) script cfgs.toNat orig := by
-      have := ih
-      simp only [Run.mk.injEq] at this
-      exact Prod.ext this.1 (Prod.ext this.2.1 this.2.2)
-    rw [show cfgs.toNat + (d + 1) = (cfgs.toNat + d) + 1 by omega, this (by rw [hq]; exact hne), hq]
+  have hgo : goes Expected.C18.facts { cfg with maxStep := n } mode = goes Expected.C18.facts cfg mode := rfl
+  rw [hgo, rounds_setMax]
+  obtain ⟨d, hd⟩ : ∃ d, n.toNat = cfg.maxStep.toNat + d := ⟨n.toNat - cfg.maxStep.toNat, by omega⟩
+  rw [hd, rounds_mono_add cfg _ script _ orig hne d]
 
 /-- the limit in force: `MaxStep` when positive; 12 (2 nodes + 10) resp. 13 (3 nodes + 10)
     when it is 0; none (the run is refused) when negative -/
@@ -253,19 +216,6 @@ theorem generate_eq_stream_whole {F : Facts} (hF : genFacts = some F) (cfg : Con
   rw [whole_chunks, whole_single]; rfl
 
 /-! ## the negation witness, non-vacuity -/
-
-/-- one echo tool `t` -/
-def wTools : String → Option (String → Except Nat String) :=
-  fun n => if n == "t" then some (fun a => .ok ("t(" ++ a ++ ")")) else none
-
-def wCfg (rd : List String) (maxStep : Int) : Config :=
-  { tools := wTools, returnDirectly := rd, maxStep := maxStep, modifier := id, checker := none }
-
-def wOrig : List Msg := [⟨.user, "hi", [], ""⟩]
-
-/-- content chunk first, the tool call in the second chunk -/
-def wLate : Reply := ⟨[⟨"thinking", []⟩, ⟨"", [⟨"c1", "t", "x"⟩]⟩]⟩
-def wDone : Reply := ⟨[⟨"done", []⟩]⟩
 
 /-- **Known finding (DESIGN §5, known_findings/C18.json).** Without the hypothesis the
     clause is false for the code as it is: the default first-chunk checker sends `Stream` to
